@@ -101,6 +101,32 @@ func C05(c *core.Ctx) {
 			jobs = append(jobs, extJob{cfg, ops2, labels[bi]})
 		}
 	}
+	// budget: every job runs e2fsck after every step; beyond the budget the generated (not the scripted)
+	// behaviours are sampled evenly
+	const budget = 4000
+	if len(jobs) > budget {
+		var rest, gen []extJob
+		for _, j := range jobs {
+			if j.label == "scripted" {
+				rest = append(rest, j)
+			} else {
+				gen = append(gen, j)
+			}
+		}
+		room := budget - len(rest)
+		if room < 1 {
+			room = 1
+		}
+		stride := (len(gen) + room - 1) / room
+		off := int(c.Seed % int64(stride))
+		for i, j := range gen {
+			if i%stride == off {
+				rest = append(rest, j)
+			}
+		}
+		c.Extra["generated_behaviours_sampled_1_in"] = stride
+		jobs = rest
+	}
 	// run; Create refusals are tolerated here
 	behsOut := make([][]map[string]any, len(jobs))
 	errs := make([]error, len(jobs))
